@@ -357,6 +357,40 @@ pub fn add_icase_code_points(mut input: CodePointSet) -> CodePointSet {
     input
 }
 
+/// Like `add_icase_code_points`, for the legacy (non-Unicode) `Canonicalize`: add every code
+/// point whose upper-casing equals the upper-casing of a member of \p input.
+pub fn add_legacy_icase_code_points(input: CodePointSet) -> CodePointSet {
+    // Only code points within a TO_UPPERCASE range may change under upper-casing.
+    // First collect the canonical forms of the members.
+    let mut canonical = input.clone();
+    for tr in TO_UPPERCASE.iter() {
+        for cp in tr.transformed_from().codepoints() {
+            if input.contains(cp) {
+                canonical.add_one(apply_uppercase(tr, cp));
+            }
+        }
+    }
+    // Then add everything that canonicalizes into that set.
+    let mut result = canonical.clone();
+    for tr in TO_UPPERCASE.iter() {
+        for cp in tr.transformed_from().codepoints() {
+            if canonical.contains(apply_uppercase(tr, cp)) {
+                result.add_one(cp);
+            }
+        }
+    }
+    result
+}
+
+/// Close \p input under case-insensitive equivalence, for Unicode or legacy mode.
+pub fn add_icase_code_points_for_mode(input: CodePointSet, unicode: bool) -> CodePointSet {
+    if unicode {
+        add_icase_code_points(input)
+    } else {
+        add_legacy_icase_code_points(input)
+    }
+}
+
 pub(crate) enum PropertyEscapeKind {
     CharacterClass(&'static [Interval]),
     StringSet(&'static [&'static [u32]]),
